@@ -436,6 +436,50 @@ def run(tier, seed, drv):
                         if gs != want:
                             res.violation('C17', 'wiring-main', 'broker started with %r (a left-over ./sqlite.db in the working directory): identity %r is answered with secret %r, expected %r - the stack does not consist of exactly the stores named on the command line, in that order' % (argv, ident_, gs, want), {'argv': argv, 'lookup': ident_})
                     res.note('wiring.main')
+                # the same two-store command lines in FRESH interpreters with different string-hash seeds: an order that
+                # comes out of a set / dict of store names is per-process luck, so one process proves nothing
+                import subprocess as _sp
+                child = (
+                    "import sys, os, io, json, types, contextlib\n"
+                    "sys.path.insert(0, %r)\n"
+                    "import compat\n"
+                    "import hpfeeds.scripts.broker as SB\n"
+                    "cap = {}\n"
+                    "class S(object):\n"
+                    "    def __init__(self, auth=None, exporter=None, name=None, **kw): cap['a'] = auth\n"
+                    "    def add_endpoint_legacy(self, *a, **k): pass\n"
+                    "    def add_endpoint_str(self, *a, **k): pass\n"
+                    "    async def serve_forever(self): return None\n"
+                    "SB.Server = S\n"
+                    "SB.aiorun = types.SimpleNamespace(run=lambda c: c.close())\n"
+                    "out = {}\n"
+                    "for argv in (['--auth', 'env', '--auth', 'sqlite'], ['--auth', 'sqlite', '--auth', 'env']):\n"
+                    "    sys.argv = ['b'] + argv\n"
+                    "    cap.clear()\n"
+                    "    try:\n"
+                    "        with contextlib.redirect_stdout(io.StringIO()):\n"
+                    "            SB.main()\n"
+                    "    except SystemExit:\n"
+                    "        pass\n"
+                    "    g = cap['a'].get_authkey('w') if cap.get('a') is not None else None\n"
+                    "    out[argv[1]] = g.get('secret') if g else None\n"
+                    "print('RESULT ' + json.dumps(out))\n") % os.path.dirname(os.path.dirname(os.path.abspath(__file__)))
+                for hs in ('1', '2', '3', '5'):
+                    res.evaluations += 1
+                    try:
+                        r_ = _sp.run([sys.executable, '-c', child], cwd=tmp, capture_output=True, text=True, timeout=60,
+                                     env=dict(os.environ, PYTHONHASHSEED=hs))
+                        line = [l for l in r_.stdout.splitlines() if l.startswith('RESULT ')]
+                        got_ = json.loads(line[-1][7:]) if line else None
+                    except Exception:
+                        got_ = None
+                    if got_ is None:
+                        res.note('wiring.main.subprocess-failed')
+                        continue
+                    res.note('wiring.main.fresh-interpreter')
+                    want_ = {'env': 'from-env', 'sqlite': 'from-sqlite'}
+                    if got_ != want_:
+                        res.violation('C17', 'wiring-main', 'broker started in a fresh interpreter (PYTHONHASHSEED=%s) with two stores that both know identity \'w\': first-named store -> answering secret is %r, expected %r - the stack is not in command-line order' % (hs, got_, want_), {'argv': 'two stores, both orders', 'hashseed': hs})
             finally:
                 SB.Server, SB.aiorun, sys.argv = saved
                 for k_ in envkeys:
